@@ -9,6 +9,7 @@ import (
 	"math/big"
 	"sort"
 	"strings"
+	"sync"
 
 	"github.com/dominant-strategies/go-quai/common"
 	"github.com/dominant-strategies/go-quai/consensus"
@@ -94,9 +95,12 @@ type World struct {
 }
 
 var keyCache = map[string]*ecdsa.PrivateKey{}
+var keyMu sync.Mutex
 
 // deterministic key whose address lies in the Quai ledger of zone {0,0}
 func eoaKey(name string) *ecdsa.PrivateKey {
+	keyMu.Lock()
+	defer keyMu.Unlock()
 	if k, ok := keyCache[name]; ok {
 		return k
 	}
@@ -131,7 +135,6 @@ func newWorld(pre *Pre) *World {
 	cc := *params.Blake3PowLocalChainConfig
 	cc.Location = loc
 	w.cfg = &cc
-	vm.InitializePrecompiles(loc)
 	w.lockup = vm.LockupContractAddresses[[2]byte{0, 0}]
 	w.diskdb = rawdb.NewMemoryDatabase(lg)
 	sdb := state.NewDatabase(w.diskdb)
